@@ -1,4 +1,4 @@
-From AV Require Import Lib.Base Lib.BytesX Generated.HttpGen Model.Http.
+From AV Require Import Lib.Base Lib.BytesX Generated.HttpGen Model.Http Model.HttpSpec.
 Require Extraction.
 Require Import ExtrOcamlBasic.
-Extraction "model.ml" keep feed init message_consumed mkLimits.
+Extraction "model.ml" keep feed init message_consumed mkLimits spec.
